@@ -505,11 +505,9 @@ class Controller:
                     return_parameters=result,
                 )
             )
-        elif isinstance(result, hci.HCI_StatusReturnParameters) and not hasattr(
-            self, handler_name
-        ):
-            # Unsupported async command, or unknown opcode: there is no specific
-            # handler that would have sent a Command Status, so do it here.
+        elif isinstance(result, hci.HCI_StatusReturnParameters):
+            # Unsupported async command, unknown opcode, or an async command handler
+            # that returned a status instead of sending a Command Status itself.
             self._send_hci_command_status(result.status, command.op_code)
         elif result is not None:
             logger.error("Async command handlers should return None, got %s", result)
